@@ -212,9 +212,11 @@ def judgeScore (ver : String) (c : List Nat) (impl : String) : Option String × 
 def judgeScoreOp (op : List String) (impl : String) : Option (Option String × List String × String × String) :=
   match op with
   | ["F", ver, c] =>
+    if !["20", "30", "31", "40"].contains ver then some (some "BAD-OP", [], "", "?") else
     let r := judgeScore ver (unhex c) impl
     some (r.1, r.2.1, r.2.2, "F" ++ ver)
   | ["H", ver, _, c] =>
+    if !["20", "30", "31", "40"].contains ver then some (some "BAD-OP", [], "", "?") else
     -- the scores of `c` reached through a history on one object: judged exactly like a fresh `F`
     let r := judgeScore ver (unhex c) impl
     some (r.1, r.2.1, r.2.2, "H" ++ ver)
